@@ -832,7 +832,7 @@ def check_batch(ctx: Ctx, res: Result):
             res.count("batch.slabs", min(len(o[0]), 5))
             res.count("batch.max_members", min(max([len(s[1][0][1]) for s in o[0]] + [0]), 5))
         res.count("batch.ranged_reads", min(n_ranged, 9))
-        reqs_in_order = [(i, sym_batchable(symbols[i]), sym_size(symbols[i])) for i in order]
+        reqs_in_order = [(i, sym_batchable(symbols[i]), sym_decl_size(symbols[i])) for i in order]
         rq = "[" + "; ".join(f"({i}, {term(b)}, {sz})" for i, b, sz in reqs_in_order) + "]"
         cases.append((f"({rq}, {tmax})", val(runs)))
         meta.append(params)
@@ -846,6 +846,11 @@ def check_batch(ctx: Ctx, res: Result):
     res.traces_validated += len(cases) + len(sc) + len(rc)
     res.count("batch.stage_cases", len(sc))
     res.count("batch.readback_cases", len(rc))
+
+
+def sym_decl_size(s):
+    """nelement * element_size as the harness reports it for pass-through requests"""
+    return {"b": sym_size(s), "c": s[1] * 8, "p": s[1], "o": 0}[s[0]]
 
 
 def sym_batchable(s):
@@ -931,6 +936,13 @@ def check_read_synth(ctx: Ctx, res: Result):
                 a = rng.randint(0, 6)
                 reqs.append((rng.randint(0, 2), (a, rng.choice([a, a + 1, a + 3, 7]))))
         scen.append(reqs)
+    # the witness of C16_batched_read_duplicate_refuted, replayed on the real code on every run (documented
+    # forced hypothesis, not a Failure: no API-level producer emits such a pair)
+    witness = [(0, (2, 5)), (0, (2, 5)), (0, (0, 2))]
+    _, wd, _ = run_read_synth(witness, {0: full})
+    res.notes.append("C16_batched_read_duplicate_refuted witness on the real batch_read_requests: consumer 0 received "
+                     f"{wd[0]} (dropped: {wd[0] == []}), consumer 1 received {wd[1]}")
+    scen.insert(0, witness)
     cases, meta = [], []
     for reqs in scen:
         paths = sorted({p for p, _ in reqs})
